@@ -13,7 +13,8 @@ def run(ctx):
     hx = ctx.go_build("c10")
     ctx.proof_side(DIRS, "Properties/C10.v", extra_trusted=[
         "hand-written pointer-level model of ds/list_impl.go (Model.v: next/prev/list/value maps, sentinel per list, len), tied to the code by the correspondence check only",
-        "the RWMutex of the thread-safe flavour is modelled for sequential callers only (write lock held, then read lock of the same mutex = deadlock)",
+        "the RWMutex of the thread-safe flavour is modelled for one sequential caller (Model.locks: read/write holds per list, a lock that cannot be taken blocks for ever; every wrapper method = lock, deferred unlock on all exit paths, body)",
+        "scripted callbacks: at each visit nothing, an abort, or ONE call (cbact); callbacks that write the list they iterate are run on the lock-free flavour and container/list only - on the thread-safe flavour such a call blocks by design (C10_ts_reentrant_write_blocks: modelled, not exercised by the harness)",
         "correspondence cases beyond the first --full K carry two 30-bit fingerprints of the observation list instead of the list itself (Coq parses ~10^4 numerals/s)",
     ])
     if thorough:
@@ -24,7 +25,7 @@ def run(ctx):
     else:
         ctx.corr(hx, ["hist", "--n", "400", "--len", "30", "--full", "30"])
     ctx.assumptions += [
-        "sequential callers: one call at a time per world (the thread-safe flavour is exercised for equality with the lock-free one and for self-deadlock, not for races; concurrent a.PushBackList(b) || b.PushBackList(a) lock-order inversion is outside the statement)",
+        "sequential callers: one call at a time per world, plus the calls a callback makes from inside ForEach/ForEachReverse/Range/RangeReverse (the thread-safe flavour is exercised for equality with the lock-free one and for self-deadlock, not for races; concurrent a.PushBackList(b) || b.PushBackList(a) lock-order inversion is outside the statement)",
         "the refinement theorem is for zombie-free histories (no call passes a handle orphaned by Init on a non-empty list: container/list itself leaves its contract there); such histories are covered by the correspondence check only, where ds is compared with container/list and with the pointer model",
         "element values are ints (T = int); the sentinel's nil Value of container/list is identified with the zero value",
     ]
